@@ -88,7 +88,10 @@ class Context:
 
     def _check(self, *extra):
         t = time.time()
-        r = self.solver.check(*extra)
+        try:
+            r = self.solver.check(*extra)
+        except z3.Z3Exception:
+            r = z3.unknown
         self.solver_s += time.time() - t
         self.solver_calls += 1
         return r
@@ -207,8 +210,8 @@ def _sum_terms(t, acc, seen):
             acc.append(t)
         for ch in t.children():
             _sum_terms(ch, acc, seen)
-    elif z3.is_quantifier(t):
-        _sum_terms(t.body(), acc, seen)
+    # (sums nested inside another lambda contain de Bruijn variables: lemmas about them cannot be asserted; they are
+    #  handled by engine/sumnf.py, which instantiates the bound variables first)
 
 
 _SUM_K = itertools.count()
@@ -335,6 +338,10 @@ def prove_under(pc, goal, solver=None, ctxobj=None, timeout_ms: int = 10000) -> 
 
                 t1 = time.time()
                 okk = sumnf.prove_equal(s, goal.arg(0), goal.arg(1))
+                if not okk:
+                    # bridge through an assumed sum identity  p == q  (an instantiated leaf fact / hypothesis):
+                    # if one side of the goal equals p by sum normalisation and q equals the other side, done
+                    okk = sumnf.prove_via_facts(s, goal.arg(0), goal.arg(1))
                 if ctxobj is not None:
                     ctxobj.solver_s += time.time() - t1
                 if okk:
@@ -909,6 +916,8 @@ def explore(
                 continue
             except Unsupported as e:
                 v, outcome = e, "unsupported"
+            except z3.Z3Exception as e:  # a solver failure is never an outcome of the code under analysis
+                v, outcome = Unsupported(f"z3 exception: {e}"), "unsupported"
             except PathEnd as e:
                 v, outcome = e, "cut"
             except RecursionError as e:
